@@ -544,12 +544,12 @@ def run(ctx, facts):
                           "draw protocol violated: event %s in state %s; path of generator events (event,line): %s" % (e, q, path))
         if not rej and cnt >= 4:
             ctx.ok("RNGPROTO", fid, "events %s accepted on every CFG path" % [(e, l) for (e, l, _r) in evs], hirq.loc(fn))
-    ctx.floor("C02 RNGPROTO generator events", nev, 30)
+    ctx.floor("C02 RNGPROTO generator events", nev, 24)
     # 3 GUARD + PAIR + WRITERS
     nw = 0
     for (fid, allowed) in RACE_FNS:
         nw += _guard_pair(ctx, facts, fid, allowed)
-    ctx.floor("C02 guarded signature writes", nw, 10)
+    ctx.floor("C02 guarded signature writes", nw, 8)
     race = {f for (f, _a) in RACE_FNS}
     for prefix, ok_names in SIG_STRUCT_WRITERS.items():
         for fid, fn in facts.fns.items():
